@@ -34,17 +34,35 @@ type Set []Term
 func (Set) Type() TermType { return TermTypeSet }
 func (s Set) Equal(t Term) bool {
 	c, ok := t.(Set)
-	if !ok || len(c) != len(s) {
+	if !ok {
 		return false
 	}
 
+	// two sets are equal when each holds every element of the other: an element may be written more
+	// than once ([1, 1] is the set {1}), so lengths say nothing.
 	// terms are compared with Equal: some of them (Bytes, Set) are not hashable
 	for _, id := range s {
 		if !c.contains(id) {
 			return false
 		}
 	}
+	for _, id := range c {
+		if !s.contains(id) {
+			return false
+		}
+	}
 	return true
+}
+
+// Len returns the number of distinct elements of the set.
+func (s Set) Len() int {
+	n := 0
+	for i, v := range s {
+		if !s[:i].contains(v) {
+			n++
+		}
+	}
+	return n
 }
 
 // contains reports whether an element equal to t is present in the set.
@@ -68,7 +86,7 @@ func (s Set) Intersect(t Set) Set {
 	result := Set{}
 
 	for _, id := range s {
-		if t.contains(id) {
+		if t.contains(id) && !result.contains(id) {
 			result = append(result, id)
 		}
 	}
@@ -76,10 +94,14 @@ func (s Set) Intersect(t Set) Set {
 }
 func (s Set) Union(t Set) Set {
 	result := Set{}
-	result = append(result, s...)
 
+	for _, id := range s {
+		if !result.contains(id) {
+			result = append(result, id)
+		}
+	}
 	for _, id := range t {
-		if !s.contains(id) {
+		if !result.contains(id) {
 			result = append(result, id)
 		}
 	}
